@@ -374,3 +374,74 @@ case("c11-siblings-not-cancelled", "C11", "mutant", [(SS, """        if stage.de
             self._cancel_deferred_choice_siblings(stage, message)""")], "C11.R5")
 case("c11-migration-loses-pk", "C11", "mutant", [("src/stabilize/persistence/sqlite/migrations.py", """                claimed_at TEXT NOT NULL DEFAULT (datetime('now', 'utc')),
                 PRIMARY KEY (execution_id, claim_key)""", """                claimed_at TEXT NOT NULL DEFAULT (datetime('now', 'utc'))""")], "C11.R3")
+
+# ------------------------------------------------------------------ C13
+case("c13-event-before-txn-skipstage", "C13", "mutant", [(H + "skip_stage.py", """            execution = stage.execution
+            downstream_stages = self.repository.get_downstream_stages(execution.id, stage.ref_id)""", """            if self.event_recorder:
+                self.event_recorder.record_stage_skipped(stage, reason="Stage skipped", source_handler="SkipStageHandler")
+            execution = stage.execution
+            downstream_stages = self.repository.get_downstream_stages(execution.id, stage.ref_id)""")], "C13.R6")
+case("c13-completetask-event-outside", "C13", "mutant", [(H + "complete_task.py", """            with self.repository.transaction(self.queue) as txn:
+                txn.store_stage(stage)
+                record_completion_event()
+
+                # Atomic deduplication""", """            record_completion_event()
+            with self.repository.transaction(self.queue) as txn:
+                txn.store_stage(stage)
+
+                # Atomic deduplication""")], "C13.R")
+case("c13-completestage-branch-loses-event", "C13", "mutant", [(H + "complete_stage/handler.py", """                    with self.repository.transaction(self.queue) as txn:
+                        txn.store_stage(stage)
+                        self._record_completion_event(stage, status)
+
+                        # Message deduplication""", """                    with self.repository.transaction(self.queue) as txn:
+                        txn.store_stage(stage)
+
+                        # Message deduplication""")], "C13.R5")
+case("c13-publish-inside-scope", "C13", "mutant", [("src/stabilize/events/recorder/base.py", """        if self._publish_to_bus:
+            if scope is not None:
+                scope.pending.append(recorded)
+            else:
+                try:
+                    get_event_bus().publish(recorded)""", """        if self._publish_to_bus:
+            if scope is not None and False:
+                scope.pending.append(recorded)
+            else:
+                try:
+                    get_event_bus().publish(recorded)""")], "C13.R1")
+case("c13-commit-scope-in-finally", "C13", "mutant", [("src/stabilize/persistence/sqlite/store/store.py", """            abort_store_transaction()
+            raise
+        commit_store_transaction()""", """            raise
+        finally:
+            commit_store_transaction()""")], "C13.R2")
+case("c13-abort-publishes", "C13", "mutant", [("src/stabilize/events/txn_scope.py", """        logger.debug(
+            "Dropped %d deferred event publication(s) after transaction rollback",
+            len(scope.pending),
+        )""", """        from stabilize.events.bus import get_event_bus
+        for event in scope.pending:
+            get_event_bus().publish(event)""")], "C13.R3")
+case("c13-eventstore-always-commits", "C13", "mutant", [("src/stabilize/events/store/sqlite/events.py", """            if should_commit:
+                conn.commit()
+            return result_events""", """            conn.commit()
+            return result_events""")], "C13.R4")
+case("c13-refactor-event-after-mark", "C13", "refactor", [(H + "complete_stage/handler.py", """                        txn.store_stage(stage)
+                        self._record_completion_event(stage, status)
+
+                        # Message deduplication
+                        if message.message_id:
+                            txn.mark_message_processed(
+                                message_id=message.message_id,
+                                handler_type="CompleteStage",
+                                execution_id=message.execution_id,
+                            )
+""", """                        txn.store_stage(stage)
+
+                        # Message deduplication
+                        if message.message_id:
+                            txn.mark_message_processed(
+                                message_id=message.message_id,
+                                handler_type="CompleteStage",
+                                execution_id=message.execution_id,
+                            )
+                        self._record_completion_event(stage, status)
+""")])
